@@ -94,7 +94,8 @@ def run_check(prop, tier, replay=None):
 
     # 1. regenerate
     rg = core.regen()
-    report['steps']['regen'] = {'ok': rg['ok'], 'error': rg['error'], 'changed': rg['changed'], 'hashes': rg['hashes']}
+    report['steps']['regen'] = {'ok': rg['ok'], 'error': rg['error'], 'changed': rg['changed'], 'hashes': rg['hashes'],
+                                'untranslated': rg.get('untranslated', [])}
     if not rg['ok']:
         broken.append({'kind': 'translator', 'what': 'extract/c2lean.py could not translate the current source', 'detail': rg['error']})
 
